@@ -95,7 +95,9 @@ fn build(m: &MLib) -> tet::library::Library {
         let outline = Outline { x: c.ox.iter().map(|v| tet::coords::PrimPitches::x(*v as isize)).collect(), y: c.oy.iter().map(|v| tet::coords::PrimPitches::y(*v as isize)).collect() };
         let mut cell = Cell::new(c.name.clone());
         if c.has_layout {
-            let mut l = Layout::new(c.name.clone(), c.metals, outline.clone());
+            // a view's own name need not be the cell's (every third cell: distinct view names)
+            let view_name = if c.name.len() % 3 == 0 || c.metals % 3 == 1 { format!("{}_impl", c.name) } else { c.name.clone() };
+            let mut l = Layout::new(view_name, c.metals, outline.clone());
             for i in &c.insts {
                 l.instances.add(Instance { inst_name: i.name.clone(), cell: ptrs[i.target].clone(), loc: Place::Abs((i.loc.0 as isize, i.loc.1 as isize).into()), reflect_horiz: i.rh, reflect_vert: i.rv });
             }
@@ -108,7 +110,8 @@ fn build(m: &MLib) -> tet::library::Library {
             cell.layout = Some(l);
         }
         if c.has_abs {
-            cell.abs = Some(tet::abs::Abstract::new(c.name.clone(), c.metals, outline));
+            let abs_name = if c.metals % 3 == 2 { format!("{}_abs", c.name) } else { c.name.clone() };
+            cell.abs = Some(tet::abs::Abstract::new(abs_name, c.metals, outline));
         }
         ptrs.push(Ptr::new(cell));
     }
@@ -137,9 +140,6 @@ fn read_back(lib: &tet::library::Library) -> Result<Vec<MCell>, String> {
         mc.oy = outline.y.iter().map(|p| p.num as i64).collect();
         mc.metals = metals;
         if let Some(l) = &c.layout {
-            if l.name != c.name {
-                return Err(format!("cell {} has a layout named {}", c.name, l.name));
-            }
             for ip in l.instances.iter() {
                 let i = ip.read().map_err(|_| "lock")?;
                 let loc = i.loc.abs().map_err(|e| format!("{:?}", e))?;
